@@ -13,6 +13,7 @@ EXPLANATION = (
     "equivalence of the compact and the raw StrainsVec bodies is NOT decided (they treat negative/NaN pushes "
     "differently; equality needs every pushed strain >= 0)."
     " R5: sum / iter / into_vec of both bodies traverse the whole list (no truncating adaptor applied to the list itself, private helpers followed)."
+    " R6: the compact body keeps its element count in a field that retain_non_zero* does not maintain (the raw body answers Vec::len()): no caller may ask len()/iter() on a list after a count-desynchronising call on it (helpers inlined; the rule discharges itself once every shrinking method maintains the count)."
 )
 
 CONFINED = ('util::strains_vec::', 'util::sync::', '<util::strains_vec::', '<util::sync::')
@@ -83,6 +84,7 @@ def run(ctx):
     # as zero; the raw body must push `value` only under the same positivity facts and a zero otherwise
     r4_push(ctx, facts)
     r5_whole_traversal(ctx, facts)
+    r6_len_after_shrink(ctx, facts)
     # R3 both RefCount bodies
     for c in ('default', 'sync') + (('raw_strains', 'raw_strains+sync') if ctx.tier == 'thorough' else ()):
         nsites, nw = guardrule.check(ctx, facts[c], 'C10-R3', tag='[%s]' % c)
@@ -227,3 +229,166 @@ def r5_whole_traversal(ctx, facts):
                             'body takes every section into account — the two feature configurations give different results (flashlight rating, exported strains)' % (
                                 name, cname, '; '.join(cuts)))
     ctx.floor('C10-R5', n, 6, 'whole-list consumers of StrainsVec (sum, iter, into_vec in both bodies)')
+
+
+# ---- R6: the compact body keeps its element count in a separate field; a method that shrinks the list without maintaining that count
+# leaves len()/iter() answering for the unshrunk list, while the raw body answers Vec::len() — whoever asks after such a call gets a
+# feature-dependent number
+SHRINKERS = ('retain', 'retain_mut', 'truncate', 'clear', 'pop', 'remove', 'swap_remove', 'drain', 'dedup', 'dedup_by', 'dedup_by_key', 'split_off')
+
+
+def _root(fn, op, depth=0):
+    """identity of the variable an operand refers to: (local, field names...) followed back through reborrows, copies and moves"""
+    if not isinstance(op, dict) or op.get('k') not in ('copy', 'move') or depth > 12:
+        return None
+    p = op['p']
+    return _root_place(fn, p, depth)
+
+
+def _root_place(fn, p, depth=0):
+    fields = tuple(e.get('f') for e in p.get('proj', []) if isinstance(e, dict) and 'f' in e)
+    l = p['l']
+    if l <= fn.argc:
+        return (l,) + fields
+    defs = [s for b in fn.blocks if not b.get('cleanup') for s in b['s'] if s['k'] == 'assign' and s['p']['l'] == l and 'proj' not in s['p']]
+    if len(defs) == 1 and depth < 12:
+        rv = defs[0]['rv']
+        if rv['k'] in ('ref', 'rawptr'):
+            r = _root_place(fn, rv['p'], depth + 1)
+            return r + fields if r else None
+        if rv['k'] == 'use' and rv['op'].get('k') in ('copy', 'move'):
+            r = _root_place(fn, rv['op']['p'], depth + 1)
+            return r + fields if r else None
+    return (l,) + fields
+
+
+def count_desync(F, adt, count_field='len', list_field='inner'):
+    """(methods of adt that shrink self.<list_field> — directly or through such a method — without writing self.<count_field>,
+        functions that answer from self.<count_field>)"""
+    import fieldidx
+    import prov
+    writers = {a['fn'].path for a in fieldidx.accesses(F, adt, count_field) if a['kind'] in ('assign', 'mutborrow')}
+    methods = F.methods(adt=adt)
+    desync = {}
+    for m in methods:
+        if m.path in writers:
+            continue
+        P = prov.prov_of(m)
+        for bi, t in m.calls():
+            f = t['func']
+            if f.get('name') in SHRINKERS and f.get('krate') in ('core', 'std', 'alloc') and t['args'] and \
+                    any(x[0] == 'field' and x[2] == list_field for x in prov.walk(P.call_args(bi)[0], limit=60)):
+                desync[m.path] = '%s::%s of the list' % (f.get('krate'), f.get('name'))
+    grew = True
+    while grew:
+        grew = False
+        for m in methods:
+            if m.path in desync or m.path in writers:
+                continue
+            for bi, t in m.calls():
+                cp = t['func'].get('path') or ''
+                if cp in desync and t['args'] and _root(m, t['args'][0]) == (1,):
+                    desync[m.path] = 'calls %s' % cp.split('::')[-1]
+                    grew = True
+                    break
+    # readers: functions whose answer depends on the count field (a read that only sizes an allocation does not)
+    readers = {}
+    for a in fieldidx.accesses(F, adt, count_field):
+        if a['kind'] not in ('read', 'move', 'borrow'):
+            continue
+        fn = a['fn']
+        s = a['stmt']
+        if s is not None and s['k'] == 'assign' and 'proj' not in s['p']:
+            l = s['p']['l']
+            uses = []
+            for b in fn.blocks:
+                if b.get('cleanup'):
+                    continue
+                t = b['t']
+                if t['k'] == 'call' and any(o.get('k') in ('copy', 'move') and o['p']['l'] == l for o in t['args']):
+                    uses.append(t['func'].get('name'))
+                for s2 in b['s']:
+                    if s2 is not s and s2['k'] == 'assign' and ('"l": %d' % l) in __import__('json').dumps(s2['rv']):
+                        uses.append('stmt')
+            if uses and all(u in ('with_capacity', 'reserve', 'reserve_exact') for u in uses):
+                continue
+        if fn.impl_trait in ('std::clone::Clone', 'std::fmt::Debug'):
+            continue
+        readers[fn.path] = 'reads .%s' % count_field
+    grew = True
+    while grew:
+        grew = False
+        for m in F.fns:
+            if m.path in readers or m.path in desync:
+                continue
+            if not (m.self_adt == adt or m.path.startswith(adt.rsplit('::', 1)[0])):
+                continue
+            for bi, t in m.calls():
+                cp = t['func'].get('path') or ''
+                if cp in readers and F.fn(cp) is not None and F.fn(cp).kind == 'AssocFn' and t['args']:
+                    readers[m.path] = 'calls %s' % cp.split('::')[-1]
+                    grew = True
+                    break
+    for p in list(readers):
+        if p in writers and p not in desync:
+            # a method that maintains the count (push) reads it too: it is not an observer
+            del readers[p]
+    return desync, readers
+
+
+def len_after_shrink_sites(F, adt, desync, readers, confined_prefix):
+    """(function, shrinking call, observing call) triples outside the sibling module: an observer of the count reachable after a
+    desynchronising call on the same list"""
+    import inline
+    out = []
+    nsh = 0
+    for fn0 in F.fns:
+        if fn0.path.startswith(confined_prefix) or fn0.kind == 'Closure' and fn0.path.startswith(confined_prefix):
+            continue
+        if not any((t['func'].get('path') or '') in desync for _, t in fn0.calls()):
+            continue
+        fn = inline.inlined(F, fn0, depth=2, stop=_STOP_SV)
+        sh, ob = [], []
+        for bi, t in fn.calls():
+            cp = t['func'].get('path') or ''
+            if cp in desync and t['args']:
+                sh.append((bi, _root(fn, t['args'][0]), cp, t))
+            elif cp in readers and t['args']:
+                ob.append((bi, _root(fn, t['args'][0]), cp, t))
+        nsh += len(sh)
+        for bi, r, cp, t in sh:
+            for bj, r2, cp2, t2 in ob:
+                if r is not None and r == r2 and bi != bj and fn.cfg.can_reach(bi, bj):
+                    out.append((fn0, cp, t, cp2, t2))
+    return out, nsh
+
+
+def _STOP_SV(g):
+    return 'strains_vec' in g.path or g.path.startswith('c10::CompactVec')
+
+
+def r6_len_after_shrink(ctx, facts):
+    F = facts['default']
+    SV = 'util::strains_vec::inner::StrainsVec'
+    desync, readers = count_desync(F, SV)
+    if not F.methods(adt=SV):
+        ctx.violation('C10-R6', 'anchor-missing:StrainsVec', 'compact StrainsVec not found')
+        return
+    if not desync:
+        ctx.ok('C10-R6', 'count-maintained', 'every compact StrainsVec method that shrinks the list also maintains the element count: len()/iter() may be asked at any time')
+    else:
+        sites, nsh = len_after_shrink_sites(F, SV, desync, readers, 'util::strains_vec')
+        for fn, cp, t, cp2, t2 in sites:
+            ctx.violation('C10-R6', 'len-after-shrink:%s:%s' % (fn.path, cp2.split('::')[-1]),
+                          '%s asks StrainsVec::%s (line %s) after StrainsVec::%s (line %s) on the same list: the compact body still counts the removed zero sections '
+                          '(%s does not maintain the count) while the raw_strains body answers Vec::len() — the value differs between feature configurations' % (
+                              fn.path, cp2.split('::')[-1], t2.get('ln'), cp.split('::')[-1], t.get('ln'), ', '.join(sorted(x.split('::')[-1] for x in desync))), fn.where(t2.get('ln')))
+        ctx.ok('C10-R6', 'scan', '%d call(s) of count-desynchronising methods (%s) outside util::strains_vec; observers of the count: %s; %d observed after a shrink' % (
+            nsh, ', '.join(sorted(x.split('::')[-1] for x in desync)), ', '.join(sorted(x.split('::')[-1] for x in readers)), len(sites)))
+        ctx.floor('C10-R6', nsh, 1, 'retain/sort call sites on strain peaks')
+    fx = ctx.fixture()
+    d2, r2 = count_desync(fx, 'c10::CompactVec')
+    s2, _ = len_after_shrink_sites(fx, 'c10::CompactVec', d2, r2, 'c10::CompactVec')
+    names = {fn.path for fn, *_ in s2}
+    ctx.control('C10-R6', 'c10::len_after_retain' in names, 'len() after a count-desynchronising retain is flagged')
+    ctx.control('C10-R6', 'c10::len_before_retain' not in names, 'negative control: len() before the retain, and a count read that only sizes an allocation, are accepted')
